@@ -238,20 +238,49 @@ impl Trigger for ScriptedTrigger {
     }
 }
 
-/// wraps the real roller: counts `Roll::roll` invocations (rotation requests) and, when armed,
-/// reports `Err` once after the real roller has done its work
+/// fault step meaning "do the work, then report Err" (mirror of `Driver.C05.LATE`)
+pub const LATE: u64 = 1_000_000;
+
+/// wraps the real roller: counts `Roll::roll` invocations (rotation requests); can report `Err`
+/// once after the real roller has done its work (`late_fail`), can fail before calling a roller
+/// that has no `rotate_point` hook (`early_fail`: delete roller / count 0, the model's fault 0 =
+/// `remove_file` fails), and arms faults by the ordinal of the call (concurrent cases)
 #[derive(Debug)]
 struct CountingRoller {
     inner: Box<dyn Roll>,
+    has_hook: bool,
     calls: Arc<AtomicU64>,
+    total_calls: Arc<AtomicU64>,
     late_fail: Arc<AtomicBool>,
+    early_fail: Arc<AtomicBool>,
+    ordinal_faults: Arc<Mutex<Vec<(u64, u64)>>>,
+    fault_at: Arc<AtomicI64>,
+    fault_ctr: Arc<AtomicU64>,
 }
 
 impl Roll for CountingRoller {
     fn roll(&self, file: &Path) -> anyhow::Result<()> {
         self.calls.fetch_add(1, Ordering::SeqCst);
+        let ord = self.total_calls.fetch_add(1, Ordering::SeqCst);
+        let by_ordinal = self.ordinal_faults.lock().unwrap().iter().find(|(o, _)| *o == ord).map(|(_, k)| *k);
+        if let Some(k) = by_ordinal {
+            if k == LATE {
+                self.late_fail.store(true, Ordering::SeqCst);
+            } else if self.has_hook {
+                self.fault_ctr.store(0, Ordering::SeqCst);
+                self.fault_at.store(k as i64, Ordering::SeqCst);
+            } else if k == 0 {
+                self.early_fail.store(true, Ordering::SeqCst);
+            }
+        }
+        if self.early_fail.swap(false, Ordering::SeqCst) {
+            anyhow::bail!("injected: remove_file fails");
+        }
         let r = self.inner.roll(file);
-        if r.is_ok() && self.late_fail.swap(false, Ordering::SeqCst) {
+        if by_ordinal.is_some() {
+            self.fault_at.store(-1, Ordering::SeqCst);
+        }
+        if self.late_fail.swap(false, Ordering::SeqCst) && r.is_ok() {
             anyhow::bail!("roller reports a failure after doing its work");
         }
         r
@@ -288,6 +317,9 @@ pub struct Env {
     fault_ctr: Arc<AtomicU64>,
     pub roll_calls: Arc<AtomicU64>,
     pub late_fail: Arc<AtomicBool>,
+    early_fail: Arc<AtomicBool>,
+    pub total_calls: Arc<AtomicU64>,
+    pub ordinal_faults: Arc<Mutex<Vec<(u64, u64)>>>,
 }
 
 impl Env {
@@ -315,12 +347,7 @@ impl Env {
         let fault_at = Arc::new(AtomicI64::new(-1));
         let fault_ctr = Arc::new(AtomicU64::new(0));
         let (fa, fc) = (fault_at.clone(), fault_ctr.clone());
-        log4rs::verif_hooks::set_rotate_point(Some(Arc::new(move |step: u32| {
-            // the point between a compressing copy and the removal of its source is not a
-            // step of this slice's model (yet)
-            if step == u32::MAX - 1 {
-                return Ok(());
-            }
+        log4rs::verif_hooks::set_rotate_point(Some(Arc::new(move |_step: u32| {
             let k = fc.fetch_add(1, Ordering::SeqCst) as i64;
             if k == fa.load(Ordering::SeqCst) {
                 Err(std::io::Error::new(std::io::ErrorKind::Other, "injected"))
@@ -339,6 +366,9 @@ impl Env {
             fault_ctr,
             roll_calls: Arc::new(AtomicU64::new(0)),
             late_fail: Arc::new(AtomicBool::new(false)),
+            early_fail: Arc::new(AtomicBool::new(false)),
+            total_calls: Arc::new(AtomicU64::new(0)),
+            ordinal_faults: Arc::new(Mutex::new(vec![])),
         }
     }
 
@@ -364,8 +394,17 @@ impl Env {
                 Box::new(FixedWindowRoller::builder().base(*base).build(&p, *count).unwrap())
             }
         };
-        let roller: Box<dyn Roll> =
-            Box::new(CountingRoller { inner: roller, calls: self.roll_calls.clone(), late_fail: self.late_fail.clone() });
+        let roller: Box<dyn Roll> = Box::new(CountingRoller {
+            inner: roller,
+            has_hook: self.case.roll.has_hook(),
+            calls: self.roll_calls.clone(),
+            total_calls: self.total_calls.clone(),
+            late_fail: self.late_fail.clone(),
+            early_fail: self.early_fail.clone(),
+            ordinal_faults: self.ordinal_faults.clone(),
+            fault_at: self.fault_at.clone(),
+            fault_ctr: self.fault_ctr.clone(),
+        });
         let policy = ProbePolicy { inner: CompoundPolicy::new(trigger, roller), probe: self.probe.clone() };
         RollingFileAppender::builder()
             .append(self.case.append)
@@ -374,9 +413,19 @@ impl Env {
             .unwrap()
     }
 
+    /// step `k` of the rotation of the coming append fails; a roller without `rotate_point` hook
+    /// (delete, count 0) has one step: its `remove_file`
     pub fn arm_fault(&self, k: Option<u64>) {
         self.fault_ctr.store(0, Ordering::SeqCst);
-        self.fault_at.store(k.map(|k| k as i64).unwrap_or(-1), Ordering::SeqCst);
+        self.early_fail.store(false, Ordering::SeqCst);
+        if self.case.roll.has_hook() {
+            self.fault_at.store(k.map(|k| k as i64).unwrap_or(-1), Ordering::SeqCst);
+        } else {
+            self.fault_at.store(-1, Ordering::SeqCst);
+            if k == Some(0) {
+                self.early_fail.store(true, Ordering::SeqCst);
+            }
+        }
     }
 
     pub fn snapshot(&self) -> String {
@@ -422,7 +471,10 @@ pub fn parse_op(s: &str) -> Option<OpSpec> {
 }
 
 pub fn exec_seq(f: &[&str]) -> String {
-    if f.len() != 7 {
+    // a trailing `@bg`: this binary was built with `background_rotation`; every observation is
+    // taken at quiescence (all rotation threads finished)
+    let bg = f.len() == 8 && f[7] == "@bg";
+    if f.len() != 7 && !bg {
         return "bad-case".to_owned();
     }
     let case = match Case::parse(&f[..6]) {
@@ -436,8 +488,8 @@ pub fn exec_seq(f: &[&str]) -> String {
             None => return "bad-case".to_owned(),
         }
     }
-    let has_hook = case.roll.has_hook();
     let env = Env::new(case, "c05");
+    let baseline = crate::c07::n_threads();
     let r = guarded(std::panic::AssertUnwindSafe(|| {
         let mut out = vec![];
         let mut app = Some(env.build());
@@ -456,7 +508,7 @@ pub fn exec_seq(f: &[&str]) -> String {
                     "-"
                 }
                 OpSpec::Append(r, fault) => {
-                    env.arm_fault(if has_hook { *fault } else { None });
+                    env.arm_fault(*fault);
                     let res = r.append_to(app.as_ref().unwrap());
                     env.arm_fault(None);
                     if res.is_ok() {
@@ -488,6 +540,9 @@ pub fn exec_seq(f: &[&str]) -> String {
                 Some((a, b)) => format!("{}={}", a, b),
                 None => "-".to_owned(),
             };
+            if bg && !crate::c07::wait_quiescent(baseline) {
+                return "TIMEOUT-waiting-for-rotation-threads".to_owned();
+            }
             out.push(format!("{}!{}!{}!{}", res, consult, env.roll_calls.load(Ordering::SeqCst), env.snapshot()));
         }
         drop(app);
@@ -552,10 +607,103 @@ pub fn exec_conc(f: &[&str]) -> String {
     r.unwrap_or_else(|_| "PANIC!0!~".to_owned())
 }
 
+/// `par <case 6 fields> <amp> <faults> <phases>`: concurrent writers in phases separated by a
+/// restart of the appender. faults = `,`-joined `ordinal:step` (the ordinal-th `Roll::roll` call of
+/// the whole case fails at `step`; step 1000000 = after doing its work), `~` none. phases are
+/// `/`-joined, threads `|`-joined, a thread is a `,`-joined list of `record` or `e<n>!record`.
+/// Observation: `<events>!<total roller calls>!<final snapshot>`; events mirror the phases, one
+/// entry `id.start.ack` per append with global tickets taken right before the call and right after
+/// it returned (`x` instead of the ack ticket when it returned `Err`).
+pub fn exec_par(f: &[&str]) -> String {
+    if f.len() != 9 {
+        return "bad-case".to_owned();
+    }
+    let case = match Case::parse(&f[..6]) {
+        Some(c) => c,
+        None => return "bad-case".to_owned(),
+    };
+    let amp: u64 = match f[6].parse() {
+        Ok(a) => a,
+        Err(_) => return "bad-case".to_owned(),
+    };
+    let mut faults: Vec<(u64, u64)> = vec![];
+    for e in dec_list(',', f[7]) {
+        match e.split_once(':').and_then(|(a, b)| Some((a.parse().ok()?, b.parse().ok()?))) {
+            Some(x) => faults.push(x),
+            None => return "bad-case".to_owned(),
+        }
+    }
+    let mut phases: Vec<Vec<Vec<(RecSpec, Option<u64>)>>> = vec![];
+    for ph in f[8].split('/') {
+        let mut threads = vec![];
+        for t in dec_list('|', ph) {
+            let mut v = vec![];
+            for r in dec_list(',', &t) {
+                match parse_fail_rec(&r) {
+                    Some(x) => v.push(x),
+                    None => return "bad-case".to_owned(),
+                }
+            }
+            threads.push(v);
+        }
+        phases.push(threads);
+    }
+    let env = Env::new(case, "c05p");
+    *env.ordinal_faults.lock().unwrap() = faults;
+    set_amplifier(amp);
+    let r = guarded(std::panic::AssertUnwindSafe(|| {
+        let ticket = Arc::new(AtomicU64::new(0));
+        let mut all_events: Vec<String> = vec![];
+        let mut app = Some(Arc::new(env.build()));
+        for (pi, threads) in phases.iter().enumerate() {
+            if pi > 0 {
+                // restart: every writer has joined; drop the appender, build a new one
+                drop(app.take());
+                app = Some(Arc::new(env.build()));
+            }
+            let a = app.as_ref().unwrap().clone();
+            let barrier = Arc::new(Barrier::new(threads.len().max(1)));
+            let handles: Vec<_> = threads
+                .iter()
+                .cloned()
+                .map(|prog| {
+                    let app = a.clone();
+                    let barrier = barrier.clone();
+                    let ticket = ticket.clone();
+                    std::thread::spawn(move || {
+                        barrier.wait();
+                        let mut ev = vec![];
+                        for (r, fail) in prog {
+                            let start = ticket.fetch_add(1, Ordering::SeqCst);
+                            let res = r.append_failing(&*app, fail);
+                            if res.is_ok() {
+                                let ack = ticket.fetch_add(1, Ordering::SeqCst);
+                                ev.push(format!("{}.{}.{}", r.id(), start, ack));
+                            } else {
+                                ev.push(format!("{}.{}.x", r.id(), start));
+                            }
+                        }
+                        ev
+                    })
+                })
+                .collect();
+            drop(a);
+            let evs: Vec<String> = handles.into_iter().map(|h| enc_list(",", &h.join().unwrap())).collect();
+            all_events.push(evs.join("|"));
+        }
+        let _ = read_from_other_thread(&env.path);
+        format!("{}!{}!{}", all_events.join("/"), env.total_calls.load(Ordering::SeqCst), env.snapshot())
+    }));
+    set_amplifier(0);
+    drop(env);
+    r.unwrap_or_else(|_| "PANIC!0!~".to_owned())
+}
+
 pub fn exec(fields: &[&str]) -> String {
     match fields.first() {
         Some(&"seq") => exec_seq(&fields[1..]),
         Some(&"conc") => exec_conc(&fields[1..]),
+        Some(&"par") => exec_par(&fields[1..]),
         _ => "bad-case".to_owned(),
     }
 }
@@ -680,7 +828,14 @@ pub fn gen_seq_case(rng: &mut Rng, thorough: bool, choice: TrigChoice) -> String
         }
     }
     let is_time = matches!(trig, TrigSpec::Time { .. });
-    let faults_ok = roll.has_hook() && choice != TrigChoice::Startup;
+    let faults_ok = (roll.has_hook() || choice == TrigChoice::Any) && choice != TrigChoice::Startup;
+    // fault steps: 0 .. count-1 are the rotation's steps, `count` is the `remove_file(src)` sub-step of a
+    // compressing rotation; delete roller / count 0: the one step 0
+    let max_step: u64 = match (&roll, choice) {
+        (RollSpec::Fw { count, .. }, TrigChoice::Any) if *count > 0 => *count as u64,
+        (_, TrigChoice::Any) => 1,
+        _ => 3,
+    };
     let case = Case { append, pre_active, pre_arch, trig, roll, clock0: 1_700_000_000 + rng.below(200) as i64 };
     let mut budget: u64 = if thorough { 14000 } else { 7000 };
     let mut ops = vec![];
@@ -695,7 +850,7 @@ pub fn gen_seq_case(rng: &mut Rng, thorough: bool, choice: TrigChoice) -> String
         } else {
             let r = gen_record(rng, i as u64 + 1, pivot, &mut budget).render();
             if faults_ok && rng.chance(1, 10) {
-                ops.push(format!("f{}!{}", rng.below(4), r));
+                ops.push(format!("f{}!{}", rng.range(0, max_step), r));
             } else if rng.chance(1, 12) {
                 // the roller does its work and then reports Err (first op of C17 histories more often)
                 ops.push(format!("g!{}", r));
@@ -712,6 +867,10 @@ pub fn gen_seq_case(rng: &mut Rng, thorough: bool, choice: TrigChoice) -> String
                 ops.push(r);
             }
         }
+    }
+    // background rotation (second harness build): fault-free histories, observed at quiescence
+    if choice == TrigChoice::Any && rng.chance(1, 8) && !ops.iter().any(|o| o.starts_with('f') || o.starts_with('g')) {
+        return format!("seq\t{}\t{}\t@bg", case.render(), enc_list(",", &ops));
     }
     format!("seq\t{}\t{}", case.render(), enc_list(",", &ops))
 }
@@ -773,18 +932,87 @@ pub fn gen_conc_case(rng: &mut Rng, thorough: bool, choice: TrigChoice) -> Strin
     format!("conc\t{}\t{}\t{}", case.render(), rng.below(3), threads.join("|"))
 }
 
+/// concurrent writers in phases (restart in between), roller faults by call ordinal, failing
+/// encoders (with post-process triggers, where a failed encode touches nothing)
+pub fn gen_par_case(rng: &mut Rng, thorough: bool) -> String {
+    let nphases = *rng.pick(&[1u64, 1, 2, 3]);
+    let nthreads = rng.range(2, if thorough { 6 } else { 4 });
+    let nrecs = rng.range(4, if thorough { 60 } else { 25 });
+    let total = nphases * nthreads * nrecs;
+    let with_empties = rng.chance(1, 5);
+    let trig = match rng.below(6) {
+        0 | 1 => TrigSpec::Size(*rng.pick(&[0u64, 100, 1024, 4096, 20000])),
+        2 => TrigSpec::Startup(*rng.pick(&[0u64, 1, 5, 4096])),
+        3 => TrigSpec::Scripted { pre: false, answers: (0..total).map(|_| if rng.chance(1, 6) { 'y' } else { 'n' }).collect() },
+        4 => TrigSpec::Scripted { pre: true, answers: (0..total).map(|_| if rng.chance(1, 6) { 'y' } else { 'n' }).collect() },
+        _ => TrigSpec::Time { unit: 's', n: 0, modulate: false },
+    };
+    let post = matches!(trig, TrigSpec::Size(_) | TrigSpec::Scripted { pre: false, .. });
+    // mostly windows that cannot evict (every record must be there at the end), some that do
+    let roll = match rng.below(8) {
+        0 => RollSpec::Delete,
+        1 | 2 => RollSpec::Fw { base: *rng.pick(&[0u32, 1]), count: *rng.pick(&[1u32, 2, 3]), pat: *rng.pick(&[0u32, 1, 2, 3]) },
+        _ => RollSpec::Fw { base: *rng.pick(&[0u32, 1, 3]), count: 500, pat: *rng.pick(&[0u32, 0, 1, 2, 3, 4]) },
+    };
+    let mut faults = vec![];
+    if rng.chance(1, 3) {
+        for _ in 0..rng.range(1, 3) {
+            let step = match &roll {
+                RollSpec::Fw { count, pat, .. } if *count > 0 => {
+                    // not the compress sub-step here (known defect, exercised by the sequential family)
+                    let top = if *pat == 2 || *pat == 3 { (*count as u64).min(3) } else { (*count as u64).min(3) + 1 };
+                    if rng.chance(1, 3) { LATE } else { rng.below(top.max(1)) }
+                }
+                _ => if rng.chance(1, 2) { LATE } else { 0 },
+            };
+            faults.push(format!("{}:{}", rng.below(6), step));
+        }
+        faults.sort();
+        faults.dedup_by(|a, b| a.split(':').next() == b.split(':').next());
+    }
+    let case = Case {
+        append: rng.chance(3, 4),
+        pre_active: if rng.chance(1, 3) { None } else { Some(*rng.pick(&[0u64, 8, 40, 5000])) },
+        pre_arch: vec![],
+        trig,
+        roll,
+        clock0: 1_700_000_000,
+    };
+    let mut phases = vec![];
+    for p in 0..nphases {
+        let mut threads = vec![];
+        for t in 0..nthreads {
+            let mut recs = vec![];
+            for k in 0..nrecs {
+                let sizes = match rng.below(8) {
+                    // (an empty record leaves no trace in the files: such cases are judged but not replayed)
+                    0 => if with_empties { vec![0] } else { vec![9] },
+                    1 => vec![8],
+                    2 => vec![rng.range(1000, 1040)],
+                    3 => vec![rng.range(8, 100), rng.range(8, 300)],
+                    4 => vec![1024],
+                    _ => vec![rng.range(8, 120)],
+                };
+                let r = RecSpec::Bin { id: (p * 8 + t + 1) * 65536 + k, sizes: sizes.clone() }.render();
+                if post && rng.chance(1, 12) {
+                    recs.push(format!("e{}!{}", rng.range(0, sizes.len() as u64), r));
+                } else {
+                    recs.push(r);
+                }
+            }
+            threads.push(recs.join(","));
+        }
+        phases.push(threads.join("|"));
+    }
+    format!("par\t{}\t{}\t{}\t{}", case.render(), rng.below(3), enc_list(",", &faults), phases.join("/"))
+}
+
 pub fn gen(rng: &mut Rng, n: usize, thorough: bool, emit: &mut dyn FnMut(String)) {
     for _ in 0..n {
         emit(gen_seq_case(rng, thorough, TrigChoice::Any));
     }
-    if thorough {
-        for _ in 0..(n / 20).max(5) {
-            emit(gen_conc_case(rng, thorough, TrigChoice::Any));
-        }
-    } else {
-        for _ in 0..(n / 40).max(3) {
-            emit(gen_conc_case(rng, thorough, TrigChoice::Any));
-        }
+    for _ in 0..(if thorough { n / 10 } else { n / 6 }).max(10) {
+        emit(gen_par_case(rng, thorough));
     }
 }
 
